@@ -23,6 +23,7 @@ Correspondence: Correct/Correct.v (extracted), given the merged definition as da
 verdict kind, the same projected result, the same source header stamps after the call and the same set
 of shared stamp objects."""
 import base64
+import datetime
 import glob
 import hashlib
 import socket
@@ -287,6 +288,27 @@ def ext_of(d, p, o):
     return e
 
 
+def replica_doc_problems(d, sd, todays):
+    """clauses of the statement about the DOCUMENT of a replica (d) of the invoice sd: today's date, no value / operation date,
+    business content kept"""
+    bad = []
+    if d.get("issue_date") not in todays:
+        bad.append("issue date is not today (%s)" % sorted(todays)[0])
+    for k in ("value_date", "op_date"):
+        if k in d:
+            bad.append(k + " kept")
+    if d.get("type") != sd.get("type"):
+        bad.append("type changed")
+    # members the calculation does not rewrite are compared as they are, calculated ones by their size
+    for k in ("$regime", "$addons", "type", "series", "currency", "supplier", "customer", "ordering", "delivery", "meta", "exchange_rates", "preceding"):
+        if jc.norm(d.get(k)) != jc.norm(sd.get(k)):
+            bad.append("business content changed: " + k)
+    for k in ("lines", "discounts", "charges"):
+        if len(d.get(k) or []) != len(sd.get(k) or []):
+            bad.append("business content changed: " + k)
+    return bad
+
+
 def shape_problems(src, case, ob, replicate=False):
     """clauses of the statement an accepted result must satisfy; returns list of broken clauses"""
     bad = []
@@ -310,21 +332,7 @@ def shape_problems(src, case, ob, replicate=False):
     except jc.HasFloat:
         pass
     if replicate:
-        if d.get("issue_date") not in (ob.t0, ob.t1):
-            bad.append("issue date is not today (%s)" % ob.t0)
-        for k in ("value_date", "op_date"):
-            if k in d:
-                bad.append(k + " kept")
-        if d.get("type") != sd.get("type"):
-            bad.append("type changed")
-        # members the calculation does not rewrite are compared as they are, calculated ones by their size
-        for k in ("$regime", "$addons", "type", "series", "currency", "supplier", "customer", "ordering", "delivery", "meta", "exchange_rates", "preceding"):
-            if jc.norm(d.get(k)) != jc.norm(sd.get(k)):
-                bad.append("business content changed: " + k)
-        for k in ("lines", "discounts", "charges"):
-            if len(d.get(k) or []) != len(sd.get(k) or []):
-                bad.append("business content changed: " + k)
-        return bad
+        return bad + replica_doc_problems(d, sd, (ob.t0, ob.t1))
     if d.get("type") != o.get("type"):
         bad.append("type is not the requested one")
     if src.cd["types"] and o.get("type") not in src.cd["types"]:
@@ -545,6 +553,207 @@ class Server:
 
 def b64(s):
     return base64.b64encode(s.encode() if isinstance(s, str) else s).decode()
+
+
+# ----------------------------------------------------------------------------------------------
+# bare (non-enveloped) documents through `gobl replicate` and bulk replicate
+# ----------------------------------------------------------------------------------------------
+def rate_change_dates(regime):
+    """the day before each dated change of a published rate of the regime (a later `since` of a rate that already had a value)
+    -> sorted [(day, what changes the day after)]"""
+    d = load_def("regimes", regime) if regime else None
+    out = {}
+    for cat in (d or {}).get("categories") or []:
+        for r in cat.get("rates") or []:
+            vals = r.get("values") or []
+            sinces = sorted({v["since"] for v in vals if v.get("since")})
+            undated = any(not v.get("since") for v in vals)
+            for i, sn in enumerate(sinces):
+                if i == 0 and not undated:
+                    continue        # nothing published before the first value
+                try:
+                    day = (datetime.date.fromisoformat(sn) - datetime.timedelta(days=1)).isoformat()
+                except ValueError:
+                    continue
+                out.setdefault(day, "%s %s changes on %s" % (cat.get("code"), r.get("rate") or r.get("key"), sn))
+    return sorted(out.items())
+
+
+def bare_cases(c, srcs, quick):
+    """documents WITHOUT an envelope, each with the envelope holding the same document:
+      as-is           the `doc` member of every example envelope (every schema) and of every derived / rich invoice source;
+      uncalculated    the same invoice without its totals (what a client that builds documents itself sends);
+      before-change   the invoice dated the day before a published rate of its regime changes, calculated by the library for
+                      that day (gobl.Envelop) - every change of every regime x every invoice source of that regime
+                      (derived addon combinations: the latest two changes)
+    -> [{"id", "source", "variant", "bare": document, "env": envelope text, "invoice": source document or None}]"""
+    out = []
+    seen = {s.name for s in srcs}
+    for f in jc.example_files():
+        rel = os.path.relpath(f, REPO)
+        if rel in jc.STALE or rel in seen:
+            continue
+        try:
+            t = open(f, "rb").read().decode()
+            e = json.loads(t)
+            if isinstance(e.get("doc"), dict) and e["doc"].get("$schema") and not e["doc"]["$schema"].endswith("bill/invoice"):
+                out.append({"source": rel, "variant": {"kind": "as-is"}, "bare": e["doc"], "env": t, "invoice": None})
+        except (ValueError, OSError, AttributeError):
+            pass
+    old = []
+    for s in srcs:
+        out.append({"source": s.name, "variant": {"kind": "as-is"}, "bare": s.doc, "env": s.text, "invoice": s.doc, "derived": s.derived})
+        if "totals" in s.doc and not s.derived:
+            d = {k: v for k, v in s.doc.items() if k != "totals"}
+            out.append({"source": s.name, "variant": {"kind": "uncalculated", "removed": ["totals"]}, "bare": d,
+                        "env": json.dumps(dict(s.env, doc=d)), "invoice": s.doc})
+        days = rate_change_dates(s.regime)
+        for day, why in (days[-2:] if s.derived else days):
+            d = json.loads(json.dumps(s.doc))
+            d["issue_date"] = day
+            old.append((s, {"kind": "before-change", "issue_date": day, "change": why}, d))
+    envs = run_go(["c08 envelop " + w(json.dumps(d)) for _, _, d in old], shards=16, min_shard=64)
+    for (s, var, d), ol in zip(old, envs):
+        v = parse_wire(ol)
+        if not (v and v[0] == b"ok"):
+            c.count("bare:before-change-not-calculable(skipped)", 1)
+            continue
+        t = v[1].decode()
+        out.append({"source": s.name, "variant": var, "bare": json.loads(t)["doc"], "env": t, "invoice": s.doc, "derived": s.derived})
+    for i, k in enumerate(out):
+        k["id"] = i
+    return out
+
+
+def tax_rates_of(d):
+    """the percentages a document's tax totals show (for messages)"""
+    out = []
+    for cat in (((d or {}).get("totals") or {}).get("taxes") or {}).get("categories") or []:
+        for r in cat.get("rates") or []:
+            out.append("%s %s %s" % (cat.get("code"), r.get("key", ""), r.get("percent", "")))
+    return out
+
+
+def no_ids(d):
+    return jc.norm({k: v for k, v in d.items() if k != "uuid"}) if isinstance(d, dict) else d
+
+
+def bare_problems(k, got, env_got, recalc, todays):
+    """what a replica of a bare document must satisfy; got = the entry point's answer (document or None), env_got = the same entry
+    point's answer for the envelope holding the same document (envelope or None), recalc = `got` calculated once more by the library"""
+    if (got is None) != (env_got is None):
+        return ["the bare document is %s, the same document inside an envelope is %s" % (
+            "refused" if got is None else "replicated", "refused" if env_got is None else "replicated")]
+    if got is None:
+        return []
+    bad = []
+    if not isinstance(got, dict) or got.get("$schema") != k["bare"].get("$schema"):
+        return ["the answer is not a document of the source's schema"]
+    if recalc is not None and no_ids(recalc) != no_ids(got):
+        bad.append("the replica is not a freshly calculated document: calculating it once more changes %s (tax rates in the replica %s, "
+                   "after calculating %s)" % (first_diff(no_ids(got), no_ids(recalc), "doc"), tax_rates_of(got), tax_rates_of(recalc)))
+    ed = env_got.get("doc") if isinstance(env_got, dict) else None
+    if no_ids(ed) != no_ids(got):
+        bad.append("the replica differs from the replica of the same document inside an envelope at %s (tax rates %s, in the envelope %s)" % (
+            first_diff(no_ids(got), no_ids(ed), "doc"), tax_rates_of(got), tax_rates_of(ed)))
+    sd = k["invoice"]
+    if sd is not None:
+        if not got.get("uuid") or got.get("uuid") == k["bare"].get("uuid"):
+            bad.append("document identifier is not new")
+        if got.get("code"):
+            bad.append("result has a code")
+        bad += replica_doc_problems(got, sd, todays)
+    return bad
+
+
+def run_bare(c, srv, srcs, todays, rep, quick):
+    rng = c.rng
+    ks = bare_cases(c, srcs, quick)
+    reqs = []
+    for k in ks:
+        reqs.append({"action": "replicate", "req_id": "b%d" % k["id"], "payload": {"data": b64(json.dumps(k["bare"]))}})
+        reqs.append({"action": "replicate", "req_id": "e%d" % k["id"], "payload": {"data": b64(k["env"])}})
+    resp = srv.bulk(reqs)
+    log("bare bulk run", len(reqs), round(time.time() - T0, 1))
+    # the command line: one document per (regime, change) first, then some of every other variant; file argument and stdin in turn
+    order = list(ks)
+    rng.shuffle(order)
+    pick, seen = [], set()
+    for k in order:
+        v = k["variant"]
+        key = ((k["invoice"] or {}).get("$regime"), v.get("issue_date")) if v["kind"] == "before-change" else None
+        if key and key not in seen and not k.get("derived"):
+            seen.add(key)
+            pick.append(k)
+    cap = 24 if quick else 200
+    pick = pick[:cap]
+    for kind, inv, n in (("as-is", True, 4), ("as-is", False, 4), ("uncalculated", True, 4)):
+        pick += [k for k in order if k["variant"]["kind"] == kind and (k["invoice"] is not None) == inv][:n if quick else 10 * n]
+    tmp = os.path.join(WORK, "c16bare.%d.json" % os.getpid())
+    cli = {}
+    for n, k in enumerate(pick):
+        text = json.dumps(k["bare"])
+        if n % 2:
+            p = subprocess.run([os.path.join(BIN, "gobl"), "replicate"], input=text, capture_output=True, text=True, env=GOENV, timeout=120)
+        else:
+            open(tmp, "w").write(text)
+            p = subprocess.run([os.path.join(BIN, "gobl"), "replicate", tmp], capture_output=True, text=True, env=GOENV, timeout=120)
+        payload = None
+        if p.returncode == 0:
+            try:
+                payload = json.loads(p.stdout[p.stdout.index("{"):])
+            except ValueError:
+                payload = None
+        cli[k["id"]] = (payload, p.stderr[-300:] if payload is None else None, "stdin" if n % 2 else "file")
+    try:
+        os.remove(tmp)
+    except OSError:
+        pass
+    log("bare cli run", len(pick), round(time.time() - T0, 1))
+    # every answer calculated once more by the library
+    answers = []
+    for k in ks:
+        b_ = resp.get("b%d" % k["id"]) or {}
+        answers.append(("bulk", k, b_.get("payload"), b_.get("error"), None))
+        if k["id"] in cli:
+            answers.append(("cli", k, cli[k["id"]][0], cli[k["id"]][1], cli[k["id"]][2]))
+    idx = [i for i, a in enumerate(answers) if isinstance(a[2], dict)]
+    rec = run_go(["c08 envelop " + w(json.dumps(answers[i][2])) for i in idx], shards=16, min_shard=64)
+    recalc = {}
+    for i, ol in zip(idx, rec):
+        v = parse_wire(ol)
+        if v and v[0] == b"ok":
+            recalc[i] = json.loads(v[1]).get("doc")
+    moved = 0
+    for i, (entry, k, got, err, how) in enumerate(answers):
+        e_ = resp.get("e%d" % k["id"])
+        if e_ is None or ("b%d" % k["id"]) not in resp:
+            rep("bulk-missing", "bulk gave no response for a request", {"machinery": "bulk", "req": k["id"]}, no_input=True)
+            continue
+        env_got = e_.get("payload")
+        stream = "bare-replicate:%s:%s" % (entry, k["variant"]["kind"])
+        # non-trivial: the replica's tax totals differ from the source's (the calculation of today's date had something to do)
+        nontrivial = isinstance(env_got, dict) and tax_rates_of(env_got.get("doc")) != tax_rates_of(k["bare"])
+        moved += 1 if nontrivial else 0
+        c.count(stream, 1, (k["source"], json.dumps(k["variant"], sort_keys=True)))
+        if got is None and env_got is None:
+            c.count("bare-replicate:refused-with-and-without-envelope", 1)
+        probs = bare_problems(k, got, env_got, recalc.get(i), todays)
+        if probs:
+            rep("bare" + probs[0][:30], "%s of a BARE document (%s, %s) breaks the statement: %s" % (
+                "gobl replicate" if entry == "cli" else "bulk replicate", k["source"], json.dumps(k["variant"]), "; ".join(probs)),
+                {"stream": "bare-replicate", "entry": entry, "input_from": how, "source_file": k["source"], "source_derived": k.get("derived"),
+                 "variant": k["variant"], "bare_document": k["bare"], "clause": "a replica keeps the business content but has a new identifier, no code, "
+                 "today's date (and is a freshly calculated document of that date, as the replica of the same document inside an envelope is)",
+                 "problems": probs, "response_error": err, "bare_result": got, "envelope_route_result_doc": (env_got or {}).get("doc") if isinstance(env_got, dict) else None,
+                 "envelope_route_error": e_.get("error"), "related_fixed_finding": "C16-bare-replicate-not-recalculated",
+                 "rerun": "tools/check C16 --replay <this file>"})
+    c.cov["bare_documents"] = {"cases": len(ks), "by_variant": {v: sum(1 for k in ks if k["variant"]["kind"] == v) for v in ("as-is", "uncalculated", "before-change")},
+                               "answers_whose_tax_rates_differ_from_the_source's": moved,
+                               "regimes_with_rate_changes": sorted({(k["invoice"] or {}).get("$regime") for k in ks if k["variant"]["kind"] == "before-change"}),
+                               "command_line": len(pick)}
+    if not moved:
+        c.report("bare-replicate stream is vacuous: no document's tax rates changed between its date and today", {"machinery": "bare-replicate"}, no_input=True)
 
 
 # ----------------------------------------------------------------------------------------------
@@ -897,9 +1106,13 @@ def run(c):
         rid = "r%d" % j
         reqs.append({"action": "replicate", "req_id": rid, "payload": {"data": b64(v[1])}})
         meta[rid] = (j, v[1].decode())
+    todays = {o.t0 for o in routs if not o.err} | {o.t1 for o in routs if not o.err}
+    todays = sorted(todays | {datetime.datetime.now(datetime.timezone.utc).date().isoformat()})
     with Server() as srv:
         resp = srv.bulk(reqs)
-    log("bulk run", len(reqs), round(time.time() - T0, 1))
+        log("bulk run", len(reqs), round(time.time() - T0, 1))
+        # ---- documents WITHOUT an envelope through bulk replicate and `gobl replicate` (internal/cli.Replicate's other branch) ----
+        run_bare(c, srv, srcs, todays, rep, quick)
     cli_n = 12 if quick else 60
 
     def judge_entry(entry, rid, payload, error):
@@ -970,7 +1183,12 @@ def run(c):
                      "(6 invoice types + none) x random subsets of {reason, ext (keys of the merged correction definition, values from the published extension "
                      "definitions), stamps in the header / from the caller / both / none, series, issue date, copy_tax, signed} x {functional options, WithData, "
                      "WithOptions}, plus per source the combination header-stamps + WithData-with-stamps; replicate x {unsigned, signed, signed with header stamps}; "
-                     "a subset of the WithData cases again through POST /bulk of `gobl serve` and `gobl correct|replicate`; distinct = distinct case descriptions; "
+                     "a subset of the WithData cases again through POST /bulk of `gobl serve` and `gobl correct|replicate`; BARE documents (no envelope) through "
+                     "bulk replicate (all) and `gobl replicate` (file / stdin; one per regime x rate change + some of each other variant): the doc of every example "
+                     "envelope of any schema and of every invoice source as it is, every example invoice without totals, every invoice source dated the day before "
+                     "each published rate change of its regime (calculated for that day by the library) - judged by: same verdict and same document (up to uuid) as "
+                     "the same entry point gives for the envelope holding that document, calculating the answer once more changes nothing, new uuid / no code / "
+                     "today / content kept; distinct = distinct case descriptions; "
                      "non-trivial = all (each case runs Correct/Replicate, three serialisations of the source and the reflection overwrite)")
     for k in cases[1:4]:
         c.sample(k)
@@ -983,6 +1201,41 @@ def run(c):
 def replay(path):
     r = json.load(open(path))["replay"]
     build_harness()
+    if r.get("stream") == "bare-replicate":
+        # the bare document through `gobl replicate`, the same document in an envelope through `gobl replicate`, and the answer calculated once more
+        build_cli()
+        bare = r["bare_document"]
+        tmp = os.path.join(WORK, "c16bare-replay.%d.json" % os.getpid())
+        v = parse_wire(run_go(["c08 envelop " + w(json.dumps(bare))], shards=1)[0])
+
+        def cli_replicate(text):
+            open(tmp, "w").write(text)
+            p = subprocess.run([os.path.join(BIN, "gobl"), "replicate", tmp], capture_output=True, text=True, env=GOENV, timeout=120)
+            try:
+                return json.loads(p.stdout[p.stdout.index("{"):]) if p.returncode == 0 else None, p.stderr[-300:]
+            except ValueError:
+                return None, p.stderr[-300:]
+        got, err = cli_replicate(json.dumps(bare))
+        env_got, env_err = cli_replicate(v[1].decode()) if v and v[0] == b"ok" else (None, "the library cannot envelop the document")
+        recalc = None
+        if got is not None:
+            v2 = parse_wire(run_go(["c08 envelop " + w(json.dumps(got))], shards=1)[0])
+            recalc = json.loads(v2[1]).get("doc") if v2 and v2[0] == b"ok" else None
+        try:
+            os.remove(tmp)
+        except OSError:
+            pass
+        print("source:", r.get("source_file"), json.dumps(r.get("variant")))
+        print("bare document: issue_date=%s tax rates=%s" % (bare.get("issue_date"), tax_rates_of(bare)))
+        print("gobl replicate <bare>:     %s" % ("refused: " + err if got is None else "issue_date=%s tax rates=%s" % (got.get("issue_date"), tax_rates_of(got))))
+        print("gobl replicate <envelope>: %s" % ("refused: " + env_err if env_got is None else "issue_date=%s tax rates=%s" % (
+            env_got["doc"].get("issue_date"), tax_rates_of(env_got["doc"]))))
+        if recalc is not None:
+            print("bare replica calculated once more: tax rates=%s" % tax_rates_of(recalc))
+        k = {"bare": bare, "invoice": None}
+        probs = bare_problems(k, got, env_got, recalc, [])
+        print("problems:", probs or "none")
+        return 1 if probs else 0
     if "case" in r and "source_file" in r:
         k = r["case"]
         if r.get("source_derived"):
